@@ -211,6 +211,8 @@ class Parents:
             n = self.parent(n)
 
     def stmt_of(self, n: ast.AST) -> Optional[ast.stmt]:
+        if hasattr(n, "_anchor"):
+            return n._anchor   # synthetic condition built by rules._leave_condition: report at the statement it summarises
         while n is not None and not isinstance(n, ast.stmt):
             n = self.parent(n)
         return n
